@@ -981,6 +981,60 @@ def _np_isfinite(interp, args, kwargs, node, frame):
     raise Unsupported("isfinite of a non-number", node)
 
 
+assumed("np.agg", "np.sum/np.mean/np.median/np.min/np.max of a vector are uninterpreted aggregates of that vector (fresh symbols); np.shape(v)[0] == len(v)")
+
+
+@lib("numpy.shape")
+def _np_shape(interp, args, kwargs, node, frame):
+    use(interp, "np.agg")
+    v = args[0]
+    if isinstance(v, SVec):
+        return (_len(interp, [v], {}, node, frame),)
+    if isinstance(v, list):
+        return (len(v),)
+    raise Unsupported("np.shape of a non-vector", node)
+
+
+@lib("numpy.sum", "numpy.mean", "numpy.median", "numpy.nansum", "numpy.nanmean")
+def _np_agg(interp, args, kwargs, node, frame):
+    use(interp, "np.agg")
+    v = args[0]
+    if isinstance(v, SVec):
+        return interp.run.fresh_real("agg")
+    if isinstance(v, (list, tuple)) and node is not None:
+        out = 0
+        for x in v:
+            out = interp.binop(ast.Add(), out, x, node, frame)
+        return out
+    raise Unsupported("aggregate of a non-vector", node)
+
+
+assumed("np.std", "np.std / np.var of a finite vector are finite and >= 0")
+assumed("t.ppf", "scipy.stats.t.ppf(p, df) is finite for 0 < p < 1 and df > 0 (NaN otherwise), and >= 0 for p >= 1/2")
+
+
+@lib("numpy.std", "numpy.var", "numpy.nanstd")
+def _np_std(interp, args, kwargs, node, frame):
+    use(interp, "np.std")
+    v = args[0]
+    if not isinstance(v, SVec):
+        raise Unsupported("np.std of a non-vector", node)
+    r = interp.run.fresh_real("std")
+    interp.run._add(r >= 0)
+    return r
+
+
+@lib("scipy.stats.t.ppf")
+def _t_ppf(interp, args, kwargs, node, frame):
+    use(interp, "t.ppf")
+    p, df = to_real(args[0]), to_real(args[1])
+    loc = frame.module.loc(node)
+    interp.run.check(f"safety.t_ppf_domain[{loc}]", z3.And(df > 0, p > 0, p < 1), kind="safety", loc=loc)
+    r = interp.run.fresh_real("tq")
+    interp.run._add(z3.Implies(p * 2 >= 1, r >= 0))
+    return r
+
+
 @lib("numpy.float64", "numpy.float32")
 def _np_float64(interp, args, kwargs, node, frame):
     return _float(interp, args, kwargs, node, frame)
